@@ -153,6 +153,9 @@ func genKeyTable() string {
 	stream("types/tupletype.go", "TupleType")
 	stream("types/timespantype.go", "Timespan")
 	stream("types/timestamptype.go", "Timestamp")
+	stream("types/uritype.go", "UriValue")
+	stream("types/semvertype.go", "SemVer")
+	stream("types/semverrangetype.go", "SemVerRange")
 	rows = append(rows, row{"UndefValue", firstByteLit(findFunc(parseFile("types/undeftype.go"), "UndefValue", "ToKey"), hk)})
 	rows = append(rows, row{"DefaultValue", firstByteLit(findFunc(parseFile("types/defaulttype.go"), "DefaultValue", "ToKey"), hk)})
 	bf := parseFile("types/booleantype.go")
